@@ -4,6 +4,7 @@ CONTRACT_MODULES = ["contracts.sorting", "contracts.refcount", "contracts.tasks"
 FUNCTIONS = ["_dfs", "toposort", "Manager.find_taskids", "Manager.find_tasks", "Manager.run_tasks", "Manager.set_value"]
 RAC = "rac/c02.py"
 RAC_BUDGET = {"quick": 60, "thorough": 600}
+RAC_MIN = {"quick": 16038, "thorough": 16038}      # fewer run-time evaluations than this = the harness skipped its work: checker broken, not "held"
 TRUSTED = [
     "CPython dict/set/list/deque semantics via pyvc library models (pyvc/values.py)",
     "Cython compiles xdeps/refs.py faithfully (proofs are about the .py text; run-time checks use the compiled build)",
